@@ -1109,6 +1109,12 @@ def direct_binding_verdict(key, fname):
     f = fb.procs[fname]
     for a in (f.ast.params or []):
         p = wrapsym.CxxParam(a)
+        if a.attrs.get("hidden"):
+            return ("%s has no Fortran procedure (its name is bound directly to the C function) although argument '%s' is "
+                    "+hidden: the documented Fortran API does not have that argument, the bind(C) interface does" % (fname, p.name))
+        if a.attrs.get("implied"):
+            return ("%s has no Fortran procedure (its name is bound directly to the C function) although argument '%s' is "
+                    "+implied(%s): the documented Fortran API computes it, the bind(C) interface expects it from the caller" % (fname, p.name, a.attrs["implied"]))
         if p.kind() in ("charp", "string", "charpp") or p.tname == "bool":
             return ("%s has no Fortran procedure (its name is bound directly to the C function) although argument '%s' (%s) "
                     "needs one: a character actual argument would reach C without its terminating NUL / length" % (fname, p.name, p.tname))
